@@ -155,6 +155,26 @@ pub struct Mock<const LB: bool> {
     pub script: u8,
     /// the complete response value the last successful handler returned
     pub last: Option<ctap2::Response>,
+    pub last1: Option<ctap1::Response>,
+}
+
+/// A fully populated CTAP1 response determined by the call counter.
+fn rich1(kind: u8, c: u32) -> ctap1::Response {
+    let mut rng = crate::prng::Rng::new(c as u64, kind as u64, 34);
+    let spec = crate::c09::U2fSpec {
+        kind,
+        header: rng.next() as u8,
+        kh_len: rng.usize_below(256),
+        cert_len: rng.usize_below(1025),
+        sig_len: rng.usize_below(73),
+        count: c,
+        pk_len: rng.usize_below(66),
+        fill: c as u64 ^ (rng.next() << 20),
+        cap: 0,
+        prefill: 0,
+        keep_previous: false,
+    };
+    crate::c09::build(&spec).0
 }
 
 /// A fully populated response of the given kind whose content is determined by the call counter:
@@ -168,7 +188,7 @@ fn rich(kind: u8, c: u32) -> ctap2::Response {
 
 impl<const LB: bool> Mock<LB> {
     pub fn new() -> Self {
-        Mock { log: Vec::new(), counter: 1000, script: 0, last: None }
+        Mock { log: Vec::new(), counter: 1000, script: 0, last: None, last1: None }
     }
     fn enter(&mut self, id: &'static str, params: String) -> u32 {
         self.counter = self.counter.wrapping_add(1);
@@ -331,20 +351,24 @@ impl<const LB: bool> ctap1::Authenticator for Mock<LB> {
         if let Some(e) = self.fail1() {
             return e;
         }
-        Ok(ctap1::register::Response {
-            header_byte: 5,
-            public_key: Bytes::new(),
-            key_handle: Bytes::from_slice(&c.to_be_bytes()).unwrap(),
-            attestation_certificate: Bytes::new(),
-            signature: Bytes::new(),
-        })
+        let full = rich1((c % 2) as u8, c);
+        self.last1 = Some(full.clone());
+        match full {
+            ctap1::Response::Register(r) => Ok(r),
+            _ => unreachable!(),
+        }
     }
     fn authenticate(&mut self, request: &ctap1::authenticate::Request<'_>) -> ctap1::Result<ctap1::authenticate::Response> {
         let c = self.enter("authenticate", format!("{:?}", request));
         if let Some(e) = self.fail1() {
             return e;
         }
-        Ok(ctap1::authenticate::Response { user_presence: 1, count: c, signature: Bytes::new() })
+        let full = rich1(2, c);
+        self.last1 = Some(full.clone());
+        match full {
+            ctap1::Response::Authenticate(r) => Ok(r),
+            _ => unreachable!(),
+        }
     }
     fn version() -> [u8; 6] {
         VERSION_MARKER
@@ -580,6 +604,7 @@ fn check_ctap1<const LB: bool>(m: &mut Mock<LB>, req: &ctap1::Request, script: u
         ctap1::Request::Version => ("version", String::new()),
     };
     m.script = script;
+    m.last1 = None;
     let before = m.log.len();
     let counter_before = m.counter;
     let res = guard(|| {
@@ -624,19 +649,19 @@ fn check_ctap1<const LB: bool>(m: &mut Mock<LB>, req: &ctap1::Request, script: u
             return f("error_changed", format!("handler failed with {:?} but the caller got {}", want, short(&res)));
         }
     } else {
-        match &res {
-            Ok(ctap1::Response::Register(x)) if handler == "register" => {
-                if x.key_handle.as_slice() != unique.to_be_bytes() {
-                    return f("result_changed", format!("handler returned the value {} but the caller got {:?}", unique, x.key_handle.as_slice()));
+        match (&res, m.last1.take()) {
+            (Ok(r), Some(want)) => {
+                let same_kind = matches!((r, handler), (ctap1::Response::Register(_), "register") | (ctap1::Response::Authenticate(_), "authenticate"));
+                if !same_kind {
+                    return f("wrong_response_variant", format!("result was {}", short(&res)));
                 }
-            }
-            Ok(ctap1::Response::Authenticate(x)) if handler == "authenticate" => {
-                if x.count != unique {
-                    return f("result_changed", format!("handler returned the value {} but the caller got {}", unique, x.count));
+                if *r != want {
+                    return f("result_changed", format!("the caller got {} but the handler returned {}", trunc(&format!("{:?}", r)), trunc(&format!("{:?}", want))));
                 }
+                let _ = unique;
             }
-            Ok(_) => return f("wrong_response_variant", format!("result was {}", short(&res))),
-            Err(e) => return f("spurious_error", format!("handler succeeded but the caller got Err({:?})", e)),
+            (Ok(_), None) => return f("result_changed", "the caller got a response although the handler recorded none".to_string()),
+            (Err(e), _) => return f("spurious_error", format!("handler succeeded but the caller got Err({:?})", e)),
         }
     }
     Ok(format!("{}:{}:{}", handler, added[0].1.len(), short(&res)))
